@@ -267,7 +267,7 @@ std::string materialLabel(const ref::Pos& p) {
 }
 
 // ---- seq: command sequences -----------------------------------------------------------------------------------
-enum Kind { MAKE, UNMAKE, UNMAKE_ALL, NULLMV, EDIT, EVAL, EVAL2, NNRAW, ASSIGN, MOVE_ASSIGN, RECONNECT1, RECONNECT2, FENRT, CONTEMPT, POLLUTE };
+enum Kind { MAKE, UNMAKE, UNMAKE_ALL, NULLMV, EDIT, EVAL, EVAL2, NNRAW, ASSIGN, MOVE_ASSIGN, RECONNECT1, RECONNECT2, FENRT, CONTEMPT, POLLUTE, RESET, RESET_MOVE };
 struct EditStep { int sq; char pc; };   // set square sq to pc ('.' = empty)
 struct Op {
     Kind k;
@@ -291,6 +291,8 @@ std::string opStr(const Op& o) {
     case RECONNECT1: return "reconnect1";
     case RECONNECT2: return "reconnect2";
     case FENRT: return "fen";
+    case RESET: return "reset";
+    case RESET_MOVE: return "resetmove";
     case CONTEMPT: return "c:" + std::to_string(o.a);
     case POLLUTE: return "pollute:" + std::to_string(o.a) + ":" + std::to_string(o.b);
     }
@@ -315,7 +317,7 @@ bool opParse(const std::string& s, Op& o) {
         return !o.ed.empty();
     }
     static const std::pair<const char*, Kind> t[] = {{"u", UNMAKE}, {"U", UNMAKE_ALL}, {"null", NULLMV}, {"e", EVAL}, {"ee", EVAL2}, {"n", NNRAW},
-        {"assign", ASSIGN}, {"moveassign", MOVE_ASSIGN}, {"reconnect1", RECONNECT1}, {"reconnect2", RECONNECT2}, {"fen", FENRT}};
+        {"assign", ASSIGN}, {"moveassign", MOVE_ASSIGN}, {"reconnect1", RECONNECT1}, {"reconnect2", RECONNECT2}, {"fen", FENRT}, {"reset", RESET}, {"resetmove", RESET_MOVE}};
     for (auto& e : t) if (s == e.first) { o.k = e.second; return true; }
     return false;
 }
@@ -491,7 +493,13 @@ Case decodeSeq(Choices& c, bool promoRace, int maxSteps) {
         else if (r < makeW + 32) push(MOVE_ASSIGN);
         else if (r < makeW + 34) push(RECONNECT1);
         else if (r < makeW + 36) push(RECONNECT2);
-        else if (r < makeW + 38) { push(FENRT); ref::normalizeEp(md.p); hist.back() = md.p; }
+        else if (r < makeW + 37) { push(FENRT); ref::normalizeEp(md.p); hist.back() = md.p; }
+        else if (r < makeW + 38) {     // a different position is assigned into the connected one: back to the start, history gone
+            if (md.stack.empty()) continue;
+            push(c.flip() ? RESET : RESET_MOVE);
+            while (!md.stack.empty()) md.unmake();
+            hist.resize(1);
+        }
         else if (r < makeW + 42) {
             Op& o = push(CONTEMPT);
             int w = c.pick(4);
@@ -555,7 +563,7 @@ struct SeqRunner {
 
     struct Flags {
         bool kingMoveEval = false, overflow = false, deepEval = false, underflow = false, castle = false, capPromo = false, ep = false,
-             nullEval = false, cacheHit = false, pollute = false, bigPollute = false, contemptSwitch = false, kingCross = false, edit = false, sixQueens = false;
+             nullEval = false, cacheHit = false, reset = false, pollute = false, bigPollute = false, contemptSwitch = false, kingCross = false, edit = false, sixQueens = false;
     } f;
 
     void run(const std::string& sub, const Case& k) {
@@ -738,6 +746,15 @@ struct SeqRunner {
                 st.count("steps:fen-assign");
                 break;
             }
+            case RESET: case RESET_MOVE: {
+                if (op.k == RESET) *pos = start;
+                else { Position tmp(start); *pos = std::move(tmp); }
+                while (!md.stack.empty()) md.unmake();
+                stack.clear();
+                f.reset = true;
+                st.count("steps:assign-other-position");
+                break;
+            }
             case CONTEMPT:
                 if (op.a < -2000 || op.a > 2000) vh::fail(caseJson(k, i + 1), "contempt outside the UCI option's range");
                 if (op.a != contempt) f.contemptSwitch = true;
@@ -807,6 +824,7 @@ struct SeqRunner {
         if (f.bigPollute) st.clsSample("pollution with >= 1000 other positions", mk);
         if (f.contemptSwitch) st.cls("contempt changed with shared caches");
         if (f.edit) st.cls("direct setPiece edit of the connected position");
+        if (f.reset) st.cls("another position assigned into the connected one");
         if (f.sixQueens) st.cls(">=6 queens of one colour");
         bool nt = f.kingMoveEval || f.overflow || f.deepEval;
         if (nt) st.nt(vj::dump(kj)); else st.cls("plain sequence");
@@ -891,7 +909,7 @@ void runSym(const std::string& sub, const SymCase& s, vh::Stats& st) {
     st.count("symmetry relations checked", 3);
     if (eg) {
         st.clsSample("symmetry on end-game-rule material", [&]() { return kj; });
-        std::string lab = p.men() <= 7 ? materialLabel(p) : "other";
+        std::string lab = p.men() <= 5 ? materialLabel(p) : p.men() <= 8 ? "6-8 men" : ">8 men";
         st.count("eg:" + lab);
         st.nt(s.fen + "|" + std::to_string(c));
     } else st.cls("symmetry on ordinary material");
